@@ -571,7 +571,16 @@ pub fn main_c05(out: &Path, tier: &str, seed: u64) {
     let (n_progs, n_vecs) = if tier == "thorough" { (300, 12) } else { (60, 10) };
     let n_progs = std::env::var("H01_C05_PROGS").ok().and_then(|s| s.parse().ok()).unwrap_or(n_progs);
     let mut gstats = crate::genp::Stats::default();
-    let (progs, vectors, _) = crate::generate_crate(seed, 500, n_progs, n_vecs, &mut gstats);
+    let (mut progs, mut vectors, _) = crate::generate_crate(seed, 500, n_progs, n_vecs, &mut gstats);
+    // the pass-shape family (enumerated): the programs most likely to separate two configurations
+    let n_random = progs.len();
+    if std::env::var("H01_NO_SHAPES").is_err() {
+        for sh in crate::shapes::all_shapes(tier) {
+            progs.push(sh.prog);
+            vectors.push(sh.vectors);
+        }
+    }
+    let n_shapes = progs.len() - n_random;
     let gen_runs = if want("gen") { run_leg(&configs, |cfg, k| leg_gen(out, cfg, k, &progs, &vectors)) } else { vec![] };
     if want("gen") {
         compare("gen", &gen_runs, &mut failures, &mut stats);
@@ -660,7 +669,7 @@ pub fn main_c05(out: &Path, tier: &str, seed: u64) {
     let summary = serde_json::json!({
         "configurations": configs.iter().map(|c| c.name()).collect::<Vec<_>>(),
         "legs": stats, "items": total_items, "comparisons": total_cmp,
-        "gen_programs": progs.len(), "gen_constructs": gstats.constructs,
+        "gen_programs": progs.len(), "gen_random_programs": n_random, "gen_shape_programs": n_shapes, "gen_constructs": gstats.constructs,
         "reference_checked": ref_checked, "reference_disagreements": ref_bad,
         "failures": failures.len(), "samples": samples, "pass_cases": pass_stats,
     });
